@@ -445,10 +445,79 @@ def isDepth {α : Type} : R α → Bool | .error (.depth _) => true | _ => false
 /-- `true` iff the outcome is a value. -/
 def isOk {α : Type} : R α → Bool | .ok _ => true | _ => false
 
-/-- Root `{k0: ${k1}, k1: ${k2}, …, k(len-1): ${k len}, k len: last}`. -/
+/-- Bool test: `s` parses to the whole-value reference `${a}`. -/
+def parsesToRefLit (s a : Str) : Bool :=
+  match Token.parse s with
+  | .ok (some (.ref [.lit b])) => b == a
+  | _ => false
+
+theorem parsesToRefLit_sound {s a : Str} (h : parsesToRefLit s a = true) :
+    Token.parse s = .ok (some (.ref [.lit a])) := by
+  unfold parsesToRefLit at h
+  split at h
+  · rename_i b hb; rw [hb]; simp at h; rw [h]
+  · simp at h
+
+theorem isLoop_sound {α : Type} {r : R α} (h : isLoop r = true) : r = .error .loop := by
+  unfold isLoop at h; split at h <;> simp_all
+
+/-- Bool test: rendering `root` succeeds and the JSON text of the result is `json`. -/
+def rendersToJson (fuel : Nat) (root : Mapping) (json : String) : Bool :=
+  match renderParamsF fuel root with
+  | .ok m => (match jsonOf m.toValue with | .ok s => s == json.toList | _ => false)
+  | _ => false
+
+-- parse hypotheses are dischargeable for concrete names (kernel evaluation of the parser)
+example : Token.parse "${a}".toList = .ok (some (.ref [.lit "a".toList])) :=
+  parsesToRefLit_sound (by decide +kernel)
+example : Token.parse "${foo_bar}".toList = .ok (some (.ref [.lit "foo_bar".toList])) :=
+  parsesToRefLit_sound (by decide +kernel)
+
+-- the cycle theorems apply to concrete roots, with arbitrary other content
+example (st : RState) (hd : st.depth + 2 ≤ maxDepth) (n : Nat) (hn : 10 ≤ n) :
+    interp n ⟨[(.str "x".toList, .num (.int 1)), (.str "a".toList, .str "${a}".toList)], [], []⟩
+      (.str "${a}".toList) st = .error .loop :=
+  self_ref_is_loop _ "a".toList "${a}".toList st (parsesToRefLit_sound (by decide +kernel)) (by decide) (by rfl) hd n hn
+
+example (n : Nat) (hn : 14 ≤ n) :
+    interp n ⟨[(.str "a".toList, .str "${b}".toList), (.str "b".toList, .str "${a}".toList)], [], []⟩
+      (.str "${b}".toList) {} = .error .loop :=
+  two_cycle_is_loop _ "a".toList "b".toList "${b}".toList "${a}".toList {} (parsesToRefLit_sound (by decide +kernel))
+    (parsesToRefLit_sound (by decide +kernel)) (by decide) (by decide)
+    (by rfl) (by rfl) (by decide) n hn
+
+-- whole-program runs: 1-, 2-, 3-cycles, and a cycle through a nested path / embedded reference
+example : renderParamsF 50 ⟨[(.str "a".toList, .str "${a}".toList)], [], []⟩ = .error .loop :=
+  isLoop_sound (by decide +kernel)
+example : renderParamsF 50 ⟨[(.str "a".toList, .str "${b}".toList),
+    (.str "b".toList, .str "${a}".toList)], [], []⟩ = .error .loop := isLoop_sound (by decide +kernel)
+example : renderParamsF 50 ⟨[(.str "a".toList, .str "${b}".toList), (.str "b".toList, .str "${c}".toList),
+    (.str "c".toList, .str "x-${a}".toList)], [], []⟩ = .error .loop := isLoop_sound (by decide +kernel)
+example : renderParamsF 50 ⟨[(.str "a".toList, .map [(.str "b".toList, .str "pre ${c} post".toList)] [] []),
+    (.str "c".toList, .str "${a:b}".toList)], [], []⟩ = .error .loop := isLoop_sound (by decide +kernel)
+
+-- the same reference many times, and a diamond (`top → l, r → base`), render fine
+example : rendersToJson 50 ⟨[(.str "a".toList, .str "x".toList),
+    (.str "b".toList, .seq [.str "${a}".toList, .str "${a}".toList, .str "${a}".toList]),
+    (.str "c".toList, .str "${a}${a}-${a}".toList)], [], []⟩
+    "{\"a\":\"x\",\"b\":[\"x\",\"x\",\"x\"],\"c\":\"xx-x\"}" = true := by decide +kernel
+example : rendersToJson 50 ⟨[(.str "top".toList, .str "${l}+${r}".toList),
+    (.str "l".toList, .str "${base}".toList), (.str "r".toList, .str "${base}".toList),
+    (.str "base".toList, .str "v".toList)], [], []⟩
+    "{\"base\":\"v\",\"l\":\"v\",\"r\":\"v\",\"top\":\"v+v\"}" = true := by decide +kernel
+
+/-- Two-character names `k?` for long chains (cheap to parse in the kernel). -/
+def nm (i : Nat) : Str := ['k', Char.ofNat (256 + i)]
+/-- Root `{nm 0: ${nm 1}, …, nm (len-1): ${nm len}, nm len: last}`. -/
 def chainRoot (len : Nat) (last : Str) : Mapping :=
-  ⟨(List.range len).map (fun i => (.str ("k".toList ++ natStr i),
-      .str ("${k".toList ++ natStr (i+1) ++ "}".toList))) ++ [(.str ("k".toList ++ natStr len), .str last)], [], []⟩
+  ⟨(List.range len).map (fun i => (.str (nm i), .str ("${".toList ++ nm (i+1) ++ "}".toList))) ++
+    [(.str (nm len), .str last)], [], []⟩
+
+-- a chain needing exactly 64 resolutions resolves; 65 hit the depth limit (and are not called a loop)
+example : isOk (interp 270 (chainRoot 63 "end".toList) (.str ("${".toList ++ nm 0 ++ "}".toList)) {}) = true := by
+  decide +kernel
+example : isDepth (interp 270 (chainRoot 64 "end".toList) (.str ("${".toList ++ nm 0 ++ "}".toList)) {}) = true := by
+  decide +kernel
 
 end C08
 end Reclass
